@@ -239,7 +239,7 @@ def do_check(ctx, registry, a):
     if not units: print('no units registered for', prop); return 2
     t_start = time.time()
     outdir = os.path.join(VERIF, 'out', 'replay'); os.makedirs(outdir, exist_ok=True)
-    results = []; builds = {}; natives = {}; diffres = {}; problems = []; violations = []; known_hits = []; inconclusive = []
+    results = []; builds = {}; natives = {}; diffres = {}; problems = []; violations = []; known_hits = []; kf_seen = {}; inconclusive = []
     pool = cf.ThreadPoolExecutor(max_workers=max(ctx.jobs * 2, 8))
 
     # stage 1: IR + C for every unit
@@ -331,7 +331,7 @@ def do_check(ctx, registry, a):
                 if classify(p['desc']) in ('encoding', 'unwind'): continue
                 rp = replay_fail(ctx, u, r, p, natives, san_builds, outdir)
                 if rp['reproduced']: rep = rp; break
-            if rep: known_hits.append('KNOWN-FINDING: property=%s %s [%s; witness inputs %s]' % (prop, known_ids[kf_id]['what'], kf_id, rep['inputs']))
+            if rep: kf_seen.setdefault(kf_id, []).append('%s %s' % (r['entry'], rep['inputs']))
             r['known_finding'] = kf_id; r['known_reproduced'] = bool(rep)
             continue
         for p in fails:
@@ -346,6 +346,8 @@ def do_check(ctx, registry, a):
                 violations.append('VIOLATION property=%s replay=%s   # %s: %s ; solver-only (undefined behaviour not observable natively)' % (prop, rp['path'], tag, p['desc']))
             else:
                 problems.append('BROKEN %s: counterexample for "%s" does not reproduce on the real build (encoding or stub wrong): inputs=%s native=%s' % (tag, p['desc'], p.get('inputs'), rp['events'][-5:]))
+    for kid, ws in kf_seen.items():   # one line per listed finding (with the twin entries whose counterexample reproduced on the real build)
+        known_hits.append('KNOWN-FINDING: property=%s %s [%s; reproduced by %s]' % (prop, known_ids[kid]['what'], kid, '; '.join(ws)))
     for k in known_hits: print(k)
     seen = set()
     for v in violations:
